@@ -1052,6 +1052,7 @@ package server
 //@ func (*AofFile).ReadLock
 //@   requires self != nil && lock != nil && len(lock.buf) == 64
 //@   ensures C08.record.whole: implies(isnil(result), ghost.consumed[ref(self.rbuf)] == old(ghost.consumed)[ref(self.rbuf)] + lockLen + 2 && lockLen + 2 <= 64)
+//@   ensures C08.record.torn-tail: implies(!isnil(result) && old(self.file) != nil && ghost.consumed[ref(self.rbuf)] - old(ghost.consumed)[ref(self.rbuf)] < min(64, lock.buf[0] + lock.buf[1]*256 + 2), calls(New) == 0)
 //@   ensures lock.buf == old(lock.buf) && self.rbuf == old(self.rbuf)
 //@   ghost recordNo[ref(self)] = ghost.recordNo[ref(self)] + 1
 //@   modifies AofFile.size@self, E_byte
@@ -1359,10 +1360,13 @@ package server
 //@   modifies LongWaitLockFreeQueue.*, LongWaitLockQueue.*, E_Pserver_LongWaitLockQueue
 
 // C08: an append file that ends inside (or before) its 12-byte header reports the reader's own error (end of
-// file), which the loader treats as the end of the log, not a format error that refuses the start
+// file), which the loader treats as the end of the log, not a format error that refuses the start; the header
+// reader makes up a format error of its own only when it was given all 12 bytes (header.torn; a header cut after
+// 1..11 bytes refused the start - repaired defect)
 //@ func (*AofFile).ReadHeader
 //@   requires self != nil
 //@   ensures C08.header.eof: implies(!isnil(err), result == err)
+//@   ensures C08.header.torn: implies(!isnil(result) && ghost.consumed[ref(self.rbuf)] - old(ghost.consumed)[ref(self.rbuf)] < 12, calls(New) == 0)
 //@   modifies AofFile.size@self, E_byte
 
 // C09: a full transfer to an empty follower announces, when the ring holds nothing, the position of the next
